@@ -463,8 +463,9 @@ def family_id(sig):
 
 def run(ctx):
     ctx.level = "proof"
-    ctx.lean_stage([], ["Verif.Props.C06", "Verif.Props.TokenRules", "Verif.Props.ScanRules", "Verif.Props.ScanRules2"])
+    ctx.lean_stage([], ["Verif.Props.C06", "Verif.Props.TokenRules", "Verif.Props.ScanRules", "Verif.Props.ScanRules2", "Verif.Props.TokenRules2"])
     import blocks
+    blocks.tokenrules2(ctx)    # MD023 MD030 MD037 MD044 MD046: mdX_scan_iff, mdX_faithful_eq_spec
     blocks.scanrules2(ctx)     # MD011 MD013 MD014 MD028 MD033 MD034 scan_iff (MD018 MD020 MD032: model + tie + excluded points)
     blocks.scanrules(ctx)      # ten scan-only token rules: mdX_scan_iff (sentence-shaped), mdX_faithful_eq_spec vs Model/RuleSpec
     blocks.tokenrules(ctx)     # mdXXX_scan_iff / mdXXX_faithful_eq_spec: the faithful scan of the token rules = the documented condition
